@@ -19,8 +19,8 @@ TRUSTED = [
 ]
 ASSUMPTIONS = [
     "positions are well-formed (board of size*size squares); coordinates fit int64 (numpy matmul)",
-    "game outcome is stated in Lean over a declarative adjudication (Sym.outcome), not over Impl.winner (Model/Winner.lean absent when C15 was built); "
-    "the harness checks winner() invariance on the implementation directly",
+    "game outcome: C15_winner_invariant / C15_hasRoad_invariant are over Impl.winner / Impl.hasRoad (via C02_winner_spec); "
+    "the harness additionally checks winner() invariance on the implementation directly",
 ]
 
 KEYS = ("reserves-changed", "commute-fails", "not-a-group", "variants-wrong", "outcome-changed", "transformed-move-unknown")
